@@ -1,0 +1,8 @@
+//go:build verif
+// +build verif
+
+// Contracts for the verification machinery in /verif (comment-only; compiled only with -tags verif).
+package nsresolver
+
+// C13 / C11: the resolver writes its own fields and its own maps only.
+//@ frame nsresolver: roots=(*NamespaceResolver).*;(*Namespace).*;NewNamespaceResolver;NewNamespace allow=F:pkg/visitor/nsresolver.NamespaceResolver.*;F:pkg/visitor/nsresolver.Namespace.*;M:map[string]string;M:map[string]map[string]string;M:map[github.com/z7zmey/php-parser/pkg/ast.Vertex]string props=C13,C11,C14
